@@ -84,7 +84,7 @@ vars == <<rule, chg, cut, snap, sq, book, expected, emitted, conn, notices, nrei
 
 \* the local book is an OrderBook; pure operators of that module are used through OB
 OB == INSTANCE OrderBook WITH bids <- << >>, asks <- << >>, seq <- 0, last <- 0,
-                              SEQS <- {0}, MaxLong <- 0, MaxShort <- 0, MaxSnap <- 0
+                              SEQS <- {0}, MaxLong <- 0, MaxShort <- 0, MaxSnap <- 0, StableUpTo <- 20
 
 (***************************************************************************)
 (* Ground truth                                                            *)
